@@ -345,6 +345,9 @@ func disposeOutPt(op *OutPt) *OutPt {
 }
 
 func (c *clipperBase) fixSelfIntersects(outrec *OutRec) {
+	if verifOn && verifSkipFixSelfIntersects {
+		return
+	}
 	op2 := outrec.pts
 	if op2.prev == op2.next.next {
 		return
